@@ -135,7 +135,7 @@ def check_case(case):
                 v = oracle.sym_eval(rm[i], env)
             except Exception as ex:
                 raise Inconclusive(f"sympy-eval:{type(ex).__name__}")
-            if not oracle.close_real(v, ref, K=16):
+            if not oracle.close_real(v, ref, K=64, float_floor=256):
                 raise Violation("C20:rhs-matrix-value", dict(ctx, state=s, point=pt, expected=oracle.fmt(ref), got=str(v)))
             n_ok += 1
             for j, xj in enumerate(order):
@@ -148,7 +148,7 @@ def check_case(case):
                     dv = oracle.sym_eval(jm[i, j], env)
                 except Exception as ex:
                     raise Inconclusive(f"sympy-eval:{type(ex).__name__}")
-                tol = 64 * dref.err + mpf(10) ** -30 * (dref.mag + 1)
+                tol = 64 * dref.err + (mpf(10) ** -30 + 256 * refsem.U) * (dref.mag + 1)
                 if abs(dv - dref.val) > tol:
                     raise Violation("C20:jacobian-entry", dict(ctx, row=s, col=xj, point=pt, expected=oracle.fmt(dref), got=str(dv)))
                 n_ok += 1
